@@ -146,7 +146,7 @@ def record_ops(fn, workdir, root_rel):
 class Execution(object):
     """One controlled execution of a set of workers."""
 
-    def __init__(self, workers, workdir, root_rel, conflict_paths, timeout=120.0):
+    def __init__(self, workers, workdir, root_rel, conflict_paths, timeout=900.0):
         self.workers = workers  # [(name, callable)]
         self.workdir = workdir
         self.root_rel = root_rel
